@@ -161,6 +161,9 @@ func parseCase(line string) (nk int, progs [][]op, sched []int, mode int, ok boo
 }
 
 func (prop) Run(line string) core.Outcome {
+	if strings.HasPrefix(line, "requests ") {
+		return runRequests(line)
+	}
 	if strings.HasPrefix(line, "stress ") {
 		var f []string
 		for _, x := range strings.Split(line, " ") {
